@@ -12,6 +12,7 @@ import (
 	"google.golang.org/grpc/metadata"
 	"io"
 	"math/rand"
+	"net"
 	"net/http"
 	"reflect"
 	"runtime"
@@ -65,6 +66,10 @@ type c13mon struct {
 	inflight  int64
 	peak      int64
 	protoSeen sync.Map
+	// cell is the failed-neighbour cell ("<protocol>:<fault kind>") whose
+	// failures precede / accompany the requests running right now ("" outside
+	// the failed-neighbour phase)
+	cell atomic.Value
 }
 
 func (m *c13mon) enter() {
@@ -167,7 +172,12 @@ func chunkOK(id string, seq int32, data []byte) bool {
 }
 
 func (h c13impl) bad(lane, what string, id string) {
-	h.viol("handler-saw-foreign-bytes:"+lane, what, map[string]any{"id": id})
+	key := "handler-saw-foreign-bytes:" + lane
+	if c, _ := h.m.cell.Load().(string); c != "" {
+		key = "failed-neighbour:" + c + ":" + key
+		what = "after / next to failed requests of class " + c + ": " + what
+	}
+	h.viol(key, what, map[string]any{"id": id})
 }
 
 var c13assets sync.Map // id/n -> []byte, owned by the handlers
@@ -496,6 +506,9 @@ type c13env struct {
 	pccL *grpc.ClientConn
 	// listener addresses for the WebSocket lanes
 	addr, paddr string
+	// lmux: the local handlers behind a mux with a small receive limit
+	// (recvLimit); it shares the process-wide pools with every other mux
+	lmux *larking.Mux
 }
 
 func slowBody(b []byte, lr *rand.Rand) io.Reader {
@@ -509,7 +522,11 @@ func slowBody(b []byte, lr *rand.Rand) io.Reader {
 		cuts = append(cuts, k)
 		left -= k
 	}
-	return yReader{&wire.ScriptReader{Data: b, Cuts: cuts, EOFWithData: lr.Intn(2) == 0}}
+	rd := yReader{&wire.ScriptReader{Data: b, Cuts: cuts, EOFWithData: lr.Intn(2) == 0}}
+	if g, _ := c13curGate.Load().(*c13gate); g != nil {
+		return &gatedReader{Reader: rd, g: g}
+	}
+	return rd
 }
 
 func respBody(resp *wire.Resp) ([]byte, string) {
@@ -1345,11 +1362,448 @@ var proxyLanes = []lane{
 	}},
 }
 
+// ---- failed requests as neighbours
+//
+// The property quantifies over client failures too: a request whose body the
+// client aborts, whose body exceeds the receive limit, is malformed or is a
+// cut / damaged gzip stream ends on an error path of the library, and what
+// that path leaves behind in the process-wide pools is used by the requests
+// that follow. A fault cell is (protocol, fault kind); the failed request
+// itself carries no verdict (only panic / wedge are looked at), the ordinary
+// requests around and after it carry the usual ones.
+
+// recvLimit is the MaxReceiveMessageSizeOption of env.lmux.
+const recvLimit = 16384
+
+// c13gate makes all requests of a burst be in the middle of their body at the
+// same time: a gated body delivers its first read, then waits until every
+// request of the burst has done so (or a grace period is over: the wait only
+// shapes the schedule, it decides nothing).
+type c13gate struct {
+	want    int32
+	arrived int32
+	ch      chan struct{}
+	once    sync.Once
+	full    int32
+}
+
+var c13curGate atomic.Value // *c13gate (nil pointer = no gate)
+
+func newGate(n int) *c13gate { return &c13gate{want: int32(n), ch: make(chan struct{})} }
+
+func (g *c13gate) arrive() {
+	if atomic.AddInt32(&g.arrived, 1) >= g.want {
+		g.once.Do(func() { atomic.StoreInt32(&g.full, 1); close(g.ch) })
+	}
+}
+
+func (g *c13gate) wait() {
+	select {
+	case <-g.ch:
+	case <-time.After(300 * time.Millisecond):
+		g.once.Do(func() { close(g.ch) })
+	}
+}
+
+type gatedReader struct {
+	io.Reader
+	g     *c13gate
+	reads int
+}
+
+func (r *gatedReader) Read(p []byte) (int, error) {
+	r.reads++
+	switch r.reads {
+	case 1:
+		n, err := r.Reader.Read(p)
+		r.g.arrive()
+		return n, err
+	case 2:
+		r.g.wait()
+	}
+	return r.Reader.Read(p)
+}
+
+type faultCell struct{ proto, kind string }
+
+func (c faultCell) String() string { return c.proto + ":" + c.kind }
+
+var faultProtos = []string{"http-unary/json", "http-unary/proto", "http-unary/httpbody", "http-stream/json", "http-stream/httpbody", "grpc/unary", "grpc/stream", "grpc-web/unary", "socket-http1/json"}
+var faultKinds = []string{"aborted-mid-body", "over-receive-limit", "malformed", "cut-gzip"}
+
+func faultCells() []faultCell {
+	var out []faultCell
+	for _, p := range faultProtos {
+		for _, k := range faultKinds {
+			if strings.HasSuffix(p, "httpbody") && k == "malformed" {
+				continue // raw bytes cannot be malformed
+			}
+			if strings.HasPrefix(p, "socket-") && k != "aborted-mid-body" {
+				continue // the socket lane exists for the real client disconnect
+			}
+			out = append(out, faultCell{p, k})
+		}
+	}
+	return out
+}
+
+func damageGzip(z []byte, lr *rand.Rand) []byte {
+	z = append([]byte(nil), z...)
+	switch lr.Intn(3) {
+	case 0:
+		z[len(z)-5] ^= 0x5a // CRC32 / ISIZE trailer
+	case 1:
+		z = z[:len(z)-3-lr.Intn(5)]
+	default:
+		n := len(z)/2 - 8
+		if n < 1 {
+			n = 1
+		}
+		z = z[:len(z)/2+lr.Intn(n)] // cut inside the deflate stream
+	}
+	return z
+}
+
+func randCuts(n int, lr *rand.Rand) []int {
+	var cuts []int
+	for left := n; left > 0 && len(cuts) < 64; {
+		k := 1 + lr.Intn(97)
+		if k > left {
+			k = left
+		}
+		cuts = append(cuts, k)
+		left -= k
+	}
+	return cuts
+}
+
+// abortedBody delivers a proper prefix of b in small reads and then fails the
+// way a connection that went away does.
+func abortedBody(b []byte, lr *rand.Rand) io.Reader {
+	cut := 1
+	if len(b) > 2 {
+		cut = 1 + lr.Intn(len(b)-1)
+	}
+	if cut > len(b) {
+		cut = len(b)
+	}
+	return yReader{&wire.ScriptReader{Data: b[:cut], Cuts: randCuts(cut, lr), TruncErr: io.ErrUnexpectedEOF}}
+}
+
+// runFault issues one request of the cell's class. outcome is what was
+// observed (no verdict is attached to it); bad is "", "WEDGED" or "PANIC ...".
+func runFault(e *c13env, c faultCell, id string, size int, lr *rand.Rand) (outcome, bad string) {
+	id = "fn-" + id
+	if size < 8 {
+		size = 8
+	}
+	if size > 20000 {
+		size = 20000
+	}
+	over := c.kind == "over-receive-limit"
+	var mux http.Handler = e.mux
+	if over {
+		mux = e.lmux
+	}
+	stream := strings.Contains(c.proto, "stream")
+	k := 1
+	if stream {
+		k = 2 + lr.Intn(3)
+	}
+	msgSize := func(i int) int {
+		n := size / k
+		if over {
+			if n > 2000 {
+				n = 2000
+			}
+			if i == k-1 {
+				n = recvLimit + 1 + lr.Intn(recvLimit)
+			}
+		}
+		return n
+	}
+	codecOf := c.proto[strings.Index(c.proto, "/")+1:]
+	encode := func(i int) []byte {
+		msg := mkChunk(id, int32(i), prf(fmt.Sprintf("%s/%d", id, i), msgSize(i)))
+		var b []byte
+		if codecOf == "json" {
+			b, _ = protojson.Marshal(msg)
+		} else {
+			b, _ = proto.Marshal(msg)
+		}
+		if c.kind == "malformed" && i == k-1 {
+			if codecOf == "json" {
+				b = b[:len(b)-1-lr.Intn(6)] // the text ends inside the object
+			} else {
+				b = append(b, 0x1a, 0x7f) // a bytes field longer than the message
+			}
+		}
+		return b
+	}
+
+	finish := func(req *http.Request, grpcStatus bool) (string, string) {
+		resp := wire.Serve(mux, req)
+		if resp.Wedged {
+			return "", "WEDGED"
+		}
+		if resp.Panic != nil {
+			return "", "PANIC " + resp.Panic.Key() + ": " + resp.Panic.Value
+		}
+		if grpcStatus {
+			if code, _, _, ok := resp.GRPCStatus(); ok && code == 0 {
+				return "answered-ok", ""
+			}
+			return "rejected", ""
+		}
+		if resp.Code == 200 {
+			return "answered-ok", ""
+		}
+		return "rejected", ""
+	}
+
+	switch {
+	case strings.HasPrefix(c.proto, "socket-http1"):
+		b := encode(0)
+		conn, err := net.DialTimeout("tcp", e.addr, 5*time.Second)
+		if err != nil {
+			return "could-not-connect", ""
+		}
+		defer conn.Close()
+		conn.SetDeadline(time.Now().Add(10 * time.Second))
+		cut := 1 + lr.Intn(len(b)-1)
+		head := fmt.Sprintf("POST /v1/echo HTTP/1.1\r\nHost: verif.test\r\nContent-Type: application/json\r\nContent-Length: %d\r\nConnection: close\r\n\r\n", len(b))
+		if _, err := conn.Write(append([]byte(head), b[:cut]...)); err != nil {
+			return "could-not-send", ""
+		}
+		// the client goes away in the middle of the body
+		if tc, ok := conn.(*net.TCPConn); ok {
+			tc.CloseWrite()
+		}
+		if _, err := io.Copy(io.Discard, conn); err != nil {
+			return "no-reply-before-deadline", ""
+		}
+		return "connection-ended", ""
+
+	case strings.HasPrefix(c.proto, "http-"):
+		var body []byte
+		path, ct := "/v1/echo", "application/json"
+		if codecOf == "proto" {
+			ct = "application/protobuf"
+		}
+		if stream {
+			path = "/v1/cs"
+		}
+		if codecOf == "httpbody" {
+			ct = "application/x-verif"
+			n := size
+			if over {
+				n = recvLimit + 1 + lr.Intn(2*recvLimit)
+			}
+			body = prf(id, n)
+			path = "/v1/uploadu/" + id
+			if stream {
+				path = "/v1/upload/" + id
+			}
+		} else {
+			for i := 0; i < k; i++ {
+				body = append(body, encode(i)...)
+			}
+		}
+		hdr := http.Header{"Content-Type": {ct}, "Accept": {"application/json"}}
+		cl := int64(len(body))
+		var rd io.Reader
+		switch c.kind {
+		case "aborted-mid-body":
+			rd = abortedBody(body, lr)
+		case "cut-gzip":
+			z := damageGzip(wire.Gzip(body), lr)
+			hdr["Content-Encoding"] = []string{"gzip"}
+			cl = int64(len(z))
+			rd = slowBody(z, lr)
+		default:
+			rd = slowBody(body, lr)
+		}
+		if stream || lr.Intn(2) == 0 {
+			cl = -1
+		}
+		return finish(wire.NewRequest("POST", path, "", hdr, rd, cl), false)
+
+	default: // grpc, grpc-web
+		var framed []byte
+		hdr := http.Header{}
+		if c.kind == "cut-gzip" {
+			hdr["Grpc-Encoding"] = []string{"gzip"}
+		}
+		for i := 0; i < k; i++ {
+			b := encode(i)
+			switch {
+			case c.kind == "cut-gzip" && i == k-1:
+				framed = append(framed, wire.Frame(damageGzip(wire.Gzip(b), lr), true)...)
+			case c.kind == "cut-gzip":
+				framed = append(framed, wire.Frame(wire.Gzip(b), true)...)
+			case over && i == k-1 && lr.Intn(2) == 0:
+				// the frame only announces a size over the limit
+				framed = append(framed, wire.FrameRaw(0, uint32(recvLimit+1+lr.Intn(1<<28)), b[:64])...)
+			default:
+				framed = append(framed, wire.Frame(b, false)...)
+			}
+		}
+		method := "Echo"
+		if stream {
+			method = "Bidi"
+		}
+		var rd io.Reader
+		if c.kind == "aborted-mid-body" {
+			rd = abortedBody(framed, lr)
+		} else {
+			rd = slowBody(framed, lr)
+		}
+		if strings.HasPrefix(c.proto, "grpc-web") {
+			req := wire.WebRequest(e.std.Full(method), hdr, framed, false, "")
+			req.Body = io.NopCloser(rd)
+			out, bad := finish(req, false)
+			if out != "" {
+				out = "completed"
+			}
+			return out, bad
+		}
+		return finish(wire.GRPCRequest(e.std.Full(method), hdr, rd), true)
+	}
+}
+
+// gatedVictims are the ordinary lanes whose request body is always delivered
+// through slowBody exactly once (so that a burst of them can be gated).
+var gatedVictims = map[string]bool{"http/proto": true, "http/json+gzip": true, "grpc/identity": true, "grpc/gzip": true, "grpc/bidi-collect": true, "http/json-stream": true, "http/json-stream+gzip": true, "httpbody/unary-upload": true, "httpbody/stream-upload": true}
+
+var victimSizes = []int{1, 5, 63, 64, 65, 127, 128, 129, 1000, 1024, 1025, 4096, 10000, 30000}
+
+// failedNeighbourPhase runs every fault cell once per pass: a volley of failed
+// requests of the cell's class interleaved with ordinary requests, followed
+// by gated bursts of ordinary requests. Every verdict comes from the ordinary
+// requests (client echo oracle, handler PRF oracle) and is keyed by the cell.
+// The pools are process-wide and what a failed request leaves in them
+// persists, so the phase stops at the first cell after which ordinary
+// requests went wrong: that cell is the class the finding names.
+func failedNeighbourPhase(r *mon.Run, env *c13env, m *c13mon, viol func(key, what string, c any), reqSeq *int64) {
+	rng := r.Rand("c13-failed-neighbours")
+	var gated, ordinary []lane
+	for _, ln := range lanes {
+		if ln.name == "grpc/gzip-fails-late" {
+			continue
+		}
+		ordinary = append(ordinary, ln)
+		if gatedVictims[ln.name] {
+			gated = append(gated, ln)
+		}
+	}
+	passes := r.Pick(1, 6)
+	nFault, nBeside, nBurst, bursts := 8, 8, 20, 2
+	defer m.cell.Store("")
+	defer c13curGate.Store((*c13gate)(nil))
+	for pass := 0; pass < passes; pass++ {
+		cells := faultCells()
+		rng.Shuffle(len(cells), func(i, j int) { cells[i], cells[j] = cells[j], cells[i] })
+		for _, cell := range cells {
+			before := r.Violations()
+			m.cell.Store(cell.String())
+			var wedged int32
+			victim := func(ln lane, size int, lr *rand.Rand, stage string) {
+				id := fmt.Sprintf("q%d", atomic.AddInt64(reqSeq, 1))
+				m.enter()
+				bad := ln.run(env, id, size, lr)
+				m.leave()
+				r.Eval(1)
+				switch {
+				case bad == "WEDGED":
+					atomic.StoreInt32(&wedged, 1)
+					r.Inconclusive("a request did not complete within the watchdog (" + ln.name + " " + stage + " failed requests of class " + cell.String() + ")")
+				case strings.HasPrefix(bad, "PANIC "):
+					viol("failed-neighbour:"+cell.String()+":"+strings.Fields(bad)[1], ln.name+" "+stage+" failed requests of class "+cell.String()+": "+bad, map[string]any{"cell": cell.String(), "lane": ln.name, "size": size})
+				case bad != "":
+					viol("failed-neighbour:"+cell.String()+":client-saw-wrong-reply:"+ln.name, fmt.Sprintf("ordinary request %s id=%s size=%d, issued %s failed requests of class %s: %s", ln.name, id, size, stage, cell, bad), map[string]any{"cell": cell.String(), "lane": ln.name, "size": size, "id": id, "stage": stage})
+				default:
+					r.Count("ordinary_requests_"+stage+"_failed_neighbours", 1)
+					r.Distinct("failed-neighbour/" + cell.String() + "/" + stage + "/" + ln.name)
+				}
+			}
+			// stage 1: failures interleaved with ordinary requests
+			var wg sync.WaitGroup
+			for i := 0; i < nFault+nBeside; i++ {
+				wg.Add(1)
+				seed := rng.Int63()
+				go func(i int) {
+					defer wg.Done()
+					lr := rand.New(rand.NewSource(seed))
+					if i%2 == 0 && i/2 < nBeside {
+						victim(ordinary[lr.Intn(len(ordinary))], victimSizes[lr.Intn(len(victimSizes))], lr, "beside")
+						return
+					}
+					size := c13sizes[lr.Intn(len(c13sizes))]
+					id := fmt.Sprintf("q%d", atomic.AddInt64(reqSeq, 1))
+					m.enter()
+					outcome, bad := runFault(env, cell, id, size, lr)
+					m.leave()
+					r.Eval(1)
+					switch {
+					case bad == "WEDGED":
+						atomic.StoreInt32(&wedged, 1)
+						r.Inconclusive("a failed request did not complete within the watchdog (" + cell.String() + ")")
+					case strings.HasPrefix(bad, "PANIC "):
+						viol(strings.Fields(bad)[1], "failed request of class "+cell.String()+": "+bad, map[string]any{"cell": cell.String(), "size": size})
+					default:
+						r.Count("failed_requests_issued", 1)
+						r.Count("failed_requests:"+cell.kind, 1)
+						r.Count("failed_requests_outcome:"+outcome, 1)
+						r.Distinct("failed-request/" + cell.String() + "/" + outcome)
+					}
+				}(i)
+			}
+			wg.Wait()
+			// stage 2: bursts of ordinary requests that are all in the middle
+			// of their body at the same time
+			for b := 0; b < bursts && atomic.LoadInt32(&wedged) == 0; b++ {
+				g := newGate(nBurst)
+				c13curGate.Store(g)
+				for i := 0; i < nBurst; i++ {
+					wg.Add(1)
+					seed := rng.Int63()
+					go func() {
+						defer wg.Done()
+						lr := rand.New(rand.NewSource(seed))
+						victim(gated[lr.Intn(len(gated))], victimSizes[lr.Intn(len(victimSizes))], lr, "after")
+					}()
+				}
+				wg.Wait()
+				c13curGate.Store((*c13gate)(nil))
+				r.Count("gated_bursts_after_failed_requests", 1)
+				if atomic.LoadInt32(&g.full) == 1 {
+					r.Count("gated_bursts_with_every_request_mid_body_together", 1)
+				}
+			}
+			r.Count("failed_neighbour_cells_run", 1)
+			if atomic.LoadInt32(&wedged) != 0 {
+				return
+			}
+			if r.Violations() > before {
+				r.Count("failed_neighbour_cells_followed_by_wrong_ordinary_requests", 1)
+				return
+			}
+		}
+	}
+}
+
+// failedNeighbourLane is the same fault population inside the main mix.
+var failedNeighbourLane = lane{"failed-request", func(e *c13env, id string, size int, lr *rand.Rand) string {
+	cells := faultCells()
+	_, bad := runFault(e, cells[lr.Intn(len(cells))], id, size, lr)
+	return bad
+}}
+
 var c13sizes = []int{0, 1, 4, 5, 63, 64, 65, 127, 128, 129, 1000, 1023, 1024, 1025, 4096, 10000, 65535, 65536, 100000, 262144}
 
 // RunC13 is the request-isolation check (built with -race).
 func RunC13(r *mon.Run) {
-	r.Rule = "32-128 concurrent clients, each issuing self-describing requests (payload = PRF(request id, length); sizes 0 B-256 KiB around the pooling thresholds) over HTTP JSON / protobuf / gzip request bodies, in-process gRPC identity / gzip, gRPC-web, collect-then-echo bidi streams, JSON client streams, HttpBody unary / streamed uploads (RecvMsg and AsHTTPBodyReader) and downloads (unary, chunked, AsHTTPBodyWriter), plus grpc-go unary / bidi over a real h2c socket, and the same handlers reached through RegisterConn to a real back-end (two back-ends per method; proxied unary, HTTP JSON, gzip-encoded HTTP client streams failed by the back-end while the upload is still running, bidi, bidi aborted by the client mid-stream, bidi failed by the back-end mid-stream, i.e. the proxy's pump goroutines with either side failing first); request bodies are delivered by slow fragmenting readers and the codecs / compressor are wrapped by yielding CodecOption / CompressorOption shims, i.e. goroutines are descheduled while pooled buffers are held. Oracles: handlers verify the PRF on every message (collecting handlers re-verify after the whole stream was received), clients verify that each reply is a function of their own request; the Go race detector watches the whole run. distinct = (lane, size class); peak in-flight requests and pooled-buffer reuse events are counted"
+	r.Rule = "32-128 concurrent clients, each issuing self-describing requests (payload = PRF(request id, length); sizes 0 B-256 KiB around the pooling thresholds) over HTTP JSON / protobuf / gzip request bodies, in-process gRPC identity / gzip, gRPC-web, collect-then-echo bidi streams, JSON client streams, HttpBody unary / streamed uploads (RecvMsg and AsHTTPBodyReader) and downloads (unary, chunked, AsHTTPBodyWriter), plus grpc-go unary / bidi over a real h2c socket, and the same handlers reached through RegisterConn to a real back-end (two back-ends per method; proxied unary, HTTP JSON, gzip-encoded HTTP client streams failed by the back-end while the upload is still running, bidi, bidi aborted by the client mid-stream, bidi failed by the back-end mid-stream, i.e. the proxy's pump goroutines with either side failing first); request bodies are delivered by slow fragmenting readers and the codecs / compressor are wrapped by yielding CodecOption / CompressorOption shims, i.e. goroutines are descheduled while pooled buffers are held. Oracles: handlers verify the PRF on every message (collecting handlers re-verify after the whole stream was received), clients verify that each reply is a function of their own request; the Go race detector watches the whole run. FAILED REQUESTS AS NEIGHBOURS: before the main mix, every cell of (http-unary json/proto/HttpBody, http-stream json/HttpBody, gRPC unary/stream, gRPC-web, a real HTTP/1 socket) x (body aborted by the client mid-body, body over the receive limit of a second mux sharing the pools, malformed body, cut/damaged gzip stream) is run as a volley of failed requests interleaved with ordinary requests and followed by gated bursts of ordinary requests (every request of a burst has delivered the first piece of its body before any delivers the second, i.e. all hold their pooled buffers together); the failed requests carry no verdict (panic / wedge only), the ordinary requests carry the echo / PRF oracles, keyed failed-neighbour:<protocol>:<fault kind>:<observable>:<lane>; the same fault population is also one lane of the main mix. distinct = (lane, size class) and (fault cell, stage, lane); peak in-flight requests and pooled-buffer reuse events are counted"
 	r.Floor = 20
 	std, err := svc.BuildStd("vf.std", "vf/std13.proto", "/v1")
 	if err != nil {
@@ -1405,8 +1859,21 @@ func RunC13(r *mon.Run) {
 		return
 	}
 	defer cc.Close()
-	env := &c13env{std: std, mux: mux, srv: srv, cc: cc, m: m, addr: srv.Addr}
+	// the same handlers behind a mux with a small receive limit: bodies over
+	// the limit are failed requests that cost little; the pools are shared
+	lmux, err := std.NewMux(impl,
+		larking.MaxReceiveMessageSizeOption(recvLimit),
+		larking.CodecOption("application/json", yCodec{larking.CodecJSON{}, m}),
+		larking.CodecOption("application/protobuf", yCodec{larking.CodecProto{}, m}),
+		larking.CompressorOption("gzip", yComp{&larking.CompressorGzip{}}),
+	)
+	if err != nil {
+		r.Inconclusive("harness: " + err.Error())
+		return
+	}
+	env := &c13env{std: std, mux: mux, srv: srv, cc: cc, m: m, addr: srv.Addr, lmux: lmux}
 	allLanes := append([]lane(nil), lanes...)
+	allLanes = append(allLanes, failedNeighbourLane)
 	if pstd, err := svc.BuildStd("vf.stdp", "vf/std13p.proto", "/p1"); err != nil {
 		r.Inconclusive("harness: " + err.Error())
 		return
@@ -1499,6 +1966,9 @@ func RunC13(r *mon.Run) {
 	rounds := r.Pick(4, 40)
 	per := total / rounds
 	var reqSeq int64
+	m.cell.Store("")
+	c13curGate.Store((*c13gate)(nil))
+	failedNeighbourPhase(r, env, m, viol, &reqSeq)
 	for round := 0; round < rounds; round++ {
 		clients := 32 << uint(rng.Intn(3)) // 32, 64, 128
 		var wg sync.WaitGroup
